@@ -941,23 +941,27 @@ class EnumConverter(Converter[enum.Enum]):
             return val  # already a member (try_convert is idempotent)
         val = self.inner_conv.try_convert(val)
         try:
-            return self.val_map[val]
+            member = self.val_map[val]
         except (KeyError, TypeError):  # not a member (or not even hashable)
             raise ParseInterrupt()
+        if type(member.value) is not type(val):  # e.g. 1.0 for a member whose value is the int 1
+            raise ParseInterrupt()
+        return member
 
     def collect_errors(self, val: t.Any) -> t.Optional[ErrorNode]:
         """See [`Converter.collect_errors`][pane.converters.Converter.collect_errors]"""
         if isinstance(val, self.ty):
             return None
         try:
-            val = self.inner_conv.try_convert(val)
+            conv_val = self.inner_conv.try_convert(val)
         except ParseInterrupt:
             return self.inner_conv.collect_errors(val)
         try:
-            self.val_map[val]
-            return None
+            if type(self.val_map[conv_val].value) is type(conv_val):
+                return None
         except (KeyError, TypeError):  # not a member (or not even hashable)
-            return WrongTypeError(self.expected(), val)
+            pass
+        return WrongTypeError(self.expected(), val)
 
 
 @dataclasses.dataclass
